@@ -443,6 +443,11 @@ class LLSWorld(World):
         if not k.get("y_int"):
             y = y.astype(dt)
         y = as_view(y.reshape(Aop.oshape))
+        # buggify: the caller's data arrays are read-only (memory-mapped measurements): a library
+        # that only reads them never notices, one that writes raises
+        ro = random.Random("lls-readonly:%d" % plan["seed"]).random() < 0.2
+        if ro:
+            y.flags.writeable = False
         ledger.own("y", y)
         kw = {}
         if plan.get("z") is not None:
@@ -451,6 +456,8 @@ class LLSWorld(World):
                 kw["z"] = float(np.real(z.ravel()[0]))
             else:
                 z = as_view(z)
+                if ro:
+                    z.flags.writeable = False
                 ledger.own("z", z)
                 kw["z"] = z
         Gop = None
